@@ -43,6 +43,61 @@ M = {
  "C20A": ("C20", "isInteger rewritten with Atoi/Itoa: negative and > 2^32-1 values round-trip", "counterparty \"-1\", \"4294967296\", ... for CCTP/Hyperlane", ["C20"]),
  "C20B": ("C20", "same rewrite of ParseCrossChainID as C17A (independently written)", "counterparty id containing ':' (internal protocol)", ["C17","C20"]),
 }
+# round 2: harder changes (several steps, unusual values, particular prior state); the list of
+# checks that fired before any strengthening is read from seeded/<id>/result_first.txt
+M2 = {
+ "C01C": ("C01", "CCTPController.executeForwarding restructured around a shared err variable and a debug log of the nonce; on the no-caller branch err is declared with := inside the block, so the outer err returned at the end stays nil", "CCTP forwarding without destination caller whose DepositForBurn fails inside the CCTP module (burn limit, unknown domain, paused burning)"),
+ "C01D": ("C01", "DispatchPayload works on a CacheContext and returns nil before writeCache() when the statistics update fails", "a route whose cumulative statistics cannot be updated (total at the 256-bit limit: two transfers of 2^255, or imported statistics near 2^256-1), then a transfer: success acknowledgement, coins left on the orbiter account"),
+ "C02C": ("C02", "InternalAttributes.Validate compares the recipient with the module address by spelling", "internal forwarding to the orbiter account written in upper case"),
+ "C02D": ("C02", "Hyperlane controller skips the denom check for synthetic tokens", "a synthetic warp token and synthetic coins on the orbiter account; the deployment under test enables collateral tokens only (app.yaml enabled_tokens: [1]), so the state cannot be reached there"),
+ "C03C": ("C03", "commonBeforeTransferHook: the size-check error is kept in a variable that the dust sweep then overwrites", "oversized passthrough payload AND dust of the transferred denom on the orbiter account"),
+ "C03D": ("C03", "dispatchForwarding returns only registered errors (errors.As): an unregistered bridge error falls through to success", "a bridge failure reported with a plain Go error (Hyperlane: no enrolled router, after the collateral moved)"),
+ "C04C": ("C04", "fixed fees are taken off the top: later basis-point entries are computed on the reduced amount", "list with a fixed-amount entry before a basis-point entry"),
+ "C04D": ("C04", "FeesToDistribute.Add helper uses the unchecked Total.Add", ">= 2 fixed-amount entries whose sum needs more than 256 bits"),
+ "C05C": ("C05", "HypAttributes recipient length check != 32 relaxed to < 32: longer recipients are truncated by the copy", "Hyperlane recipient longer than 32 bytes (33 bytes, the 64 ASCII bytes of the hex text)"),
+ "C05D": ("C05", "ReplaceDepositForBurn substitutes 32 zero bytes for an empty new destination caller", "MsgReplaceDepositForBurn with an empty new_destination_caller"),
+ "C06C": ("C06", "CCTP with-caller branch burns SourceAmount instead of DestinationAmount", "an amount-changing pre-action (fee) and a CCTP forwarding with destination caller"),
+ "C06D": ("C06", "fee action computes on SourceAmount instead of the current DestinationAmount", "an amount-changing action before the fee action ([swap, fee])"),
+ "C07C": ("C07", "OnRecvPacket runs on its own CacheContext and writes it back only on a success ack, also for packets that are not for the orbiter", "a packet NOT for the orbiter that ICS-20 refuses: the events ICS-20 emitted for the refusal (fungible_token_packet success=false, re-emitted by core as ibccallbackerror-*) are lost"),
+ "C07D": ("C07", "the not-ICS-20 data error wraps the codec error instead of the pass-through sentinel", "packet data that is not ICS-20 JSON on a channel behind the orbiter middleware"),
+ "C08C": ("C08", "in-memory cache of paused protocols in the Forwarder object", "a pause/unpause whose writes are discarded (failed transaction, branch), then transfers or queries on committed state"),
+ "C08D": ("C08", "GetAllPausedCrossChainIDs through CollectionPaginate with a nil request (default limit 100)", "more than 100 paused cross-chain ids, then genesis export / the unpaginated listing"),
+ "C09C": ("C09", "executor InitGenesis skips paused action ids that are not in ascending order", "genesis document with paused_action_ids [ACTION_SWAP, ACTION_FEE]"),
+ "C09D": ("C09", "IsActionPaused walks the whole set and keeps only the result for the last key", ">= 2 actions paused, query or transfer for the one with the lower id"),
+ "C10C": ("C10", "cross-chain pause/unpause with an empty id list is routed to the protocol-level handler through an internal helper", "MsgPauseCrossChains / MsgUnpauseCrossChains with no counterparty ids (authority-signed: pauses the whole protocol; the helper re-checks nothing)"),
+ "C10D": ("C10", "empty authority accepted by ProvideModule and validateKeeperInputs", "a keeper built without an authority: the empty signer then equals the configured authority"),
+ "C11C": ("C11", "dust sweep adds a telemetry counter from coin.Amount.Int64()", "dust >= 2^63 of the transferred denom on the orbiter account (Int64 panics)"),
+ "C11D": ("C11", "forwarder precondition compares ALL balances of the orbiter account with the expected coin", "dust of a denom OTHER than the transferred one on the orbiter account"),
+ "C12C": ("C12", "UpdateStats moved into a defer keyed on an err variable that the actions step shadows", "a transfer refused by a pre-action (fee >= amount, paused fee action); visible at dispatcher level, masked on the IBC path by the revert of error acknowledgements"),
+ "C12D": ("C12", "GetAllDispatchedAmounts through CollectionPaginate with a nil request (default limit 100)", "more than 100 (source, destination, denom) entries, then genesis export and re-import"),
+ "C13C": ("C13", "AmountDispatched.IsPositive computed on incoming+outgoing (unchecked Add)", "an entry with incoming + outgoing >= 2^256, then the direct lookup"),
+ "C13D": ("C13", "page-request normalisation drops Reverse on key-continuation pages", "reverse traversal with a next key and more entries than the page size"),
+ "C14C": ("C14", "revert of the BlockedAddr guard in the fee action (fix 545e35d)", "fee to a bank-blocked address whose module account does not exist yet, then any access to that module account"),
+ "C14D": ("C14", "revert of fix 8e8ecf9: receiver compared by spelling", "receiver = upper-case spelling of the orbiter address"),
+ "C15C": ("C15", "JSONParser keeps its root-level decode map between calls", "history on one parser: a JSON-object memo with a root key other than 'orbiter', then a valid orbiter memo"),
+ "C15D": ("C15", "root-level decode through a streaming json.Decoder (first value only)", "valid orbiter object followed by more non-whitespace content"),
+ "C16C": ("C16", "RecoverNativeDenom failure is wrapped as ErrNoOrbiterPacket (pass-through)", "packet for the orbiter with a valid payload and a token that is not native (foreign coin, other channel prefix, longer trace)"),
+ "C16D": ("C16", "CCTP controller burns the constant 'uusdc' instead of the credited denom", "returning non-USDC native coin + CCTP forwarding + orbiter account already holding that much uusdc"),
+ "C17C": ("C17", "same shape as C08D (independently written): export of paused cross-chain ids through CollectionPaginate(nil)", "more than 100 paused cross-chain ids at export"),
+ "C17D": ("C17", "in-memory copy of the passthrough size limit, refreshed only by SetParams", "params written by InitGenesis or on a discarded branch; later packets on another state"),
+ "C18C": ("C18", "in-memory cache of the last params written", "UpdateParams on a context that is discarded (failed transaction / simulation), then a packet on committed state"),
+ "C18D": ("C18", "dust sweep returns before the size check when dust is present", "oversized passthrough payload AND dust of the transferred denom on the orbiter account"),
+ "C19C": ("C19", "in-memory params cache filled on first read", "two nodes that read or write params at different times (restart, discarded context): different verdict for the same block"),
+ "C19D": ("C19", "fee recipients merged through a Go map: payment order follows map iteration", "fee list with a repeated recipient and >= 2 distinct recipients (event order differs between executions)"),
+ "C20C": ("C20", "Forwarder.Pause silently drops malformed ids from a batch", "mixed batch with at least one valid and one malformed id ([\"7\",\"05\"])"),
+ "C20D": ("C20", "DispatchCountEntry.Validate validates the source id twice, never the destination id", "genesis with a dispatched_counts entry whose CCTP/Hyperlane destination id is not canonical; visible after import at export/query"),
+}
+def fired(path):
+    out, kinds = [], {}
+    if os.path.exists(path):
+        for line in open(path):
+            m = re.match(r"(C\d\d) rc=(\d+) ?(.*)", line.strip())
+            if m and m.group(2) == "1":
+                out.append(m.group(1)); kinds[m.group(1)] = m.group(3).strip()
+    return out, kinds
+for mid, (prop, change, needs) in M2.items():
+    first, _ = fired(f"/verif/seeded/{mid}/result_first.txt")
+    M[mid] = (prop, change, needs, first)
 for mid, (prop, change, needs, first) in sorted(M.items()):
     d = f"/verif/seeded/{mid}"
     caught = []
@@ -61,7 +116,8 @@ for mid, (prop, change, needs, first) in sorted(M.items()):
         "needs_to_manifest": needs,
         "written_by": "fresh sub-agent given only the property text and a scratch worktree (nothing from /verif)",
         "confirmed": "tools/verify_mutant.sh in the scratch worktree: git apply ok; go build ./... (root and simapp) ok; go test -vet=off -count=1 ./... passes with the change; demonstration test passes on the clean tree and fails with the change",
-        "ran": "tools/run_mutant.sh (git -C /repo apply, bin/check <all 20> quick, git -C /repo checkout -- .)",
+        "ran": "tools/run_mutant.sh (git -C /repo apply, bin/check <all 20> quick, git -C /repo checkout -- .)" if mid[-1] in "AB" else "tools/run_mutant_lab.sh: the change applied to a scratch checkout of /repo HEAD wired to a copy of /verif (tools/mutlab.sh), bin/check <all 20> quick there, checkout restored",
+        "round": 1 if mid[-1] in "AB" else 2,
         "detected_by_first_round": first,
         "detected_by_now": caught,
         "violation_classes_now": kinds,
